@@ -609,7 +609,12 @@ pub fn stack_family() -> Vec<StackD> {
     wide_cut.cutsize = 500;
     let mut wide_cut_v = pat_a(v, 400);
     wide_cut_v.cutsize = 700;
-    f.push(StackD { name: "HV gap-sig-gap cut size 500 / sig-gap cut size 700 (neighbouring cuts overlap)", prim: (200, 300), layers: vec![wide_cut, wide_cut_v], vias });
+    f.push(StackD { name: "HV gap-sig-gap cut size 500 / sig-gap cut size 700 (neighbouring cuts overlap)", prim: (200, 300), layers: vec![wide_cut, wide_cut_v], vias: vias.clone() });
+    // periods that overlap by a shared ground rail without flipping (overlap != 0, FlipMode::None), under a vertical
+    // layer that does the same with an asymmetric pattern
+    let share_h = LayerD { horiz: h, spec: vec![e(Gnd, 120), e(Gap, 100), e(Sig, 80), e(Gap, 140), e(Sig, 60), e(Gap, 100), e(Gnd, 120)], offset: -60, overlap: 120, cutsize: 40, flip: false };
+    let share_v = LayerD { horiz: v, spec: vec![e(Gnd, 80), e(Gap, 60), e(Sig, 100), e(Gap, 80), e(Sig, 60), e(Gap, 20), e(Gnd, 80)], offset: -40, overlap: 80, cutsize: 40, flip: false };
+    f.push(StackD { name: "HVH shared ground rail, no flip / shared ground rail, no flip / gap-sig-gap", prim: (200, 300), layers: vec![share_h, share_v, pat_b(h, 600)], vias });
     f
 }
 
